@@ -57,12 +57,6 @@ theorem getInput2_args (P : Prog) (c : Cfg) (scr : Nat) (args : Option Nat) (res
   rw [setScr_getD]
   split <;> rfl
 
-theorem trans_inpTrans {P : Prog} {c c' : Cfg} (ht : Trans P c c') : InpTrans c c' := by
-  cases ht with
-  | step h => have := step_inpTrans P c; rwa [h] at this
-  | deliver h => exact .frame (InpFrame_deliver (Same_refl c) h)
-  | halt h => have := step_inpTrans P c; rwa [h] at this
-
 /-- the input arguments a screen's `input` callback will get change only when that screen asks for input -/
 theorem inputArgs_change {P : Prog} {c c' : Cfg} (ht : Trans P c c') (j : Nat)
     (hne : (c'.A.scr j).inputArgs ≠ (c.A.scr j).inputArgs) :
@@ -115,5 +109,48 @@ theorem inputArgs_change {P : Prog} {c c' : Cfg} (ht : Trans P c c') (j : Nat)
         | handoff s rest' _ _ eA _ _ => exact hne (by rw [eA]; rfl)
         | ready n s rest' f _ _ _ eA _ _ => exact hne (by rw [eA]; rfl)
   · exact absurd (hfr (InpFrame_deliver (Same_refl c) hd)) hne
+
+theorem eof_empty {c c' : Cfg} (h : c.deliver = some c') (heof : c.A.stdin = []) :
+    newLog c c' = [.read []] ∧ ∀ r, (readSig c r).line = [] := by
+  obtain ⟨r, rs, _, _, _, h4, _⟩ := deliver_step h
+  rw [heof] at h4
+  exact ⟨h4, fun r => by simp [readSig, heof]⟩
+
+theorem handoff_forwards (reqs : List Request) (rs : List Nat) (r : Nat) (line : Str) (sid : Nat) :
+    (handoffSigs reqs rs r line sid).head? = some (okSig reqs r line sid) ∧
+    (okSig reqs r line sid).line = line ∧ (okSig reqs r line sid).ok = true ∧
+    ∀ x ∈ (handoffSigs reqs rs r line sid).tail, x.ok = false ∧ x.line = [] ∧ x.carriesLine = false := by
+  refine ⟨rfl, rfl, rfl, ?_⟩
+  intro x hx
+  have := failSigs_all reqs rs (sid + 1) x hx
+  exact ⟨this.2.2.1, this.2.2.2, by simp [Sig.carriesLine, this.1, this.2.2.1]⟩
+
+theorem handler_forwards (P : Prog) (c : Cfg) (n : Nat) (s : Sig) (rest : List Instr) (scr : Nat)
+    (hc : c.code = .inputReady n s :: rest) (hn : n < c.A.ihs.length) (hs : s.ih = n) (hok : s.ok = true)
+    (hcb : (c.A.ihs.getD n default).cb = some scr) :
+    ∃ c', step P c = .ok c' ∧ c'.code = .processInput scr s.line :: rest ∧
+      (c'.A.ihs.getD n default).value = some s.line ∧ (c'.A.ihs.getD n default).cb = none := by
+  obtain ⟨c', h1, _, _, _, _, _, _, _, h2, _⟩ := inputReady_result P c n s rest hc hn hs
+  obtain ⟨h3, h4, h5⟩ := h2 hok
+  exact ⟨c', h1, by rw [h5, hcb]; rfl, h3, h4⟩
+
+theorem line_intact {P : Prog} {c0 c : Cfg} (h0 : Started c0) (hU : UserHandlers c0) (hF : NoForge P c0)
+    (hr : Reach P c0 c) :
+    (∀ s ∈ c.pending, s.carriesLine = true → s.line ∈ readLines c.log) ∧
+    (∀ q s, (Tr.enq q s ∈ c.tr ∨ Tr.dropped s ∈ c.tr) → s.carriesLine = true → s.line ∈ readLines c.log) ∧
+    (∀ l ∈ inputLines c.log, l ∈ readLines c.log) := by
+  have h := linesInv_reach h0 hU hF hr
+  refine ⟨?_, ?_, ?_⟩
+  · intro s hs hc
+    obtain ⟨q, hq, hsq⟩ := List.mem_flatMap.mp hs
+    obtain ⟨e, he, rfl⟩ := List.mem_map.mp hsq
+    exact (mem_readLines _ _).mpr (h.qt.1 q hq e he hc)
+  · intro q s hs hc
+    rcases hs with hs | hs
+    · exact (mem_readLines _ _).mpr (h.qt.2 _ hs hc)
+    · exact (mem_readLines _ _).mpr (h.qt.2 _ hs hc)
+  · intro l hl
+    obtain ⟨scr, a, hm⟩ := (mem_inputLines _ _).mp hl
+    exact (mem_readLines _ _).mpr (h.log _ hm)
 
 end Simpleline.Input
